@@ -288,9 +288,12 @@ func (sc *collection) doBuild(ctx context.Context) (Provider, error) {
 		scopes:                      make(map[*scope]struct{}, 4),
 	}
 
+	// Scoped initializers may depend on singletons: the root scope is created
+	// without them and runs them once the singletons exist (phase 6).
+	initializers := make([]*Descriptor, 0, voidCount)
 	for _, descriptor := range allDescriptors {
 		if descriptor != nil && descriptor.Lifetime == Scoped && descriptor.VoidReturn {
-			p.voidReturnScopedDescriptors = append(p.voidReturnScopedDescriptors, descriptor)
+			initializers = append(initializers, descriptor)
 		}
 	}
 
@@ -316,8 +319,14 @@ func (sc *collection) doBuild(ctx context.Context) (Provider, error) {
 		}
 	}
 
-	// Phase 6: Create singletons with context propagation
-	if err := p.createAllSingletonsWithContext(ctx); err != nil {
+	// Phase 6: Create singletons with context propagation, then initialize the root scope
+	err = p.createAllSingletonsWithContext(ctx)
+	if err == nil {
+		p.voidReturnScopedDescriptors = append(p.voidReturnScopedDescriptors, initializers...)
+		err = p.rootScope.runInitializers()
+	}
+
+	if err != nil {
 		// Clean up partially created provider
 		closeErr := p.Close()
 		if closeErr != nil {
